@@ -24,9 +24,14 @@ type Service struct {
 // metadata URL. If an appropriate service provider cannot be found then
 // the returned error must be os.ErrNotExist.
 func (s *Server) GetServiceProvider(_ *http.Request, serviceProviderID string) (*saml.EntityDescriptor, error) {
+	vhook("rlock-req", "cfg", &s.idpConfigMu)
 	s.idpConfigMu.RLock()
+	vhook("rlock-acq", "cfg", &s.idpConfigMu)
 	defer s.idpConfigMu.RUnlock()
+	defer vhook("runlock", "cfg", &s.idpConfigMu)
+	vhook("read", "sps", &s.idpConfigMu)
 	rv, ok := s.serviceProviders[serviceProviderID]
+	vhook("read-end", "sps", &s.idpConfigMu)
 	if !ok {
 		return nil, os.ErrNotExist
 	}
@@ -90,8 +95,13 @@ func (s *Server) HandlePutService(w http.ResponseWriter, r *http.Request) {
 		return
 	}
 
+	vhook("lock-req", "cfg", &s.idpConfigMu)
 	s.idpConfigMu.Lock()
+	vhook("lock-acq", "cfg", &s.idpConfigMu)
+	vhook("write", "sps", &s.idpConfigMu)
 	s.serviceProviders[service.Metadata.EntityID] = &service.Metadata
+	vhook("write-end", "sps", &s.idpConfigMu)
+	vhook("unlock", "cfg", &s.idpConfigMu)
 	s.idpConfigMu.Unlock()
 
 	w.WriteHeader(http.StatusNoContent)
@@ -113,8 +123,13 @@ func (s *Server) HandleDeleteService(w http.ResponseWriter, r *http.Request) {
 		return
 	}
 
+	vhook("lock-req", "cfg", &s.idpConfigMu)
 	s.idpConfigMu.Lock()
+	vhook("lock-acq", "cfg", &s.idpConfigMu)
+	vhook("write", "sps", &s.idpConfigMu)
 	delete(s.serviceProviders, service.Metadata.EntityID)
+	vhook("write-end", "sps", &s.idpConfigMu)
+	vhook("unlock", "cfg", &s.idpConfigMu)
 	s.idpConfigMu.Unlock()
 
 	w.WriteHeader(http.StatusNoContent)
@@ -133,8 +148,13 @@ func (s *Server) initializeServices() error {
 			return err
 		}
 
+		vhook("lock-req", "cfg", &s.idpConfigMu)
 		s.idpConfigMu.Lock()
+		vhook("lock-acq", "cfg", &s.idpConfigMu)
+		vhook("write", "sps", &s.idpConfigMu)
 		s.serviceProviders[service.Metadata.EntityID] = &service.Metadata
+		vhook("write-end", "sps", &s.idpConfigMu)
+		vhook("unlock", "cfg", &s.idpConfigMu)
 		s.idpConfigMu.Unlock()
 	}
 	return nil
